@@ -48,6 +48,10 @@ def run(out: Outcome, drv):
     out.rule = (f"for each test that documents missing handling: base cases of length 0..{maxn} with ALL 2^n placements of missing "
                 f"values in the data and (n<=4) independently all 2^n in depth/latitude (exhaustive per base case), every "
                 f"climatology member shape from the generator, plus seeded longer series; non-trivial = >= 2 distinct flags")
+    corp = fx.corpus_items("C02")
+    if corp:
+        fx.run_cases(out, drv, corp, verdict, WHAT, want_spec=True)
+        out.extra["corpus_cases"] = len(corp)
     for fn in FNS:
         rng = gen.rng_for(out.seed, "C02", fn)
         items = []
